@@ -32,7 +32,18 @@ def near_names(pn):
     return [x for x in out if x != pn]
 
 
-def extend(mmv, t, j, rng, mode, depth=0):
+def near_sibling_names(keys, taken):
+    """undeclared names built from the keys that SIBLING alternatives of a union declare (what a dispatching hook may probe): proper
+    prefixes / suffixes of length >= 2, two keys run together, a key with a character appended"""
+    out = []
+    ks = sorted(keys)
+    for k in ks:
+        out += [k[:i] for i in range(2, len(k))] + [k[i:] for i in range(1, len(k) - 1)] + [k + "s", k + "X"]
+    out += [a + b for a in ks for b in ks if a != b][:12]
+    return [x for x in dict.fromkeys(out) if x not in taken and x not in DECLARED]
+
+
+def extend(mmv, t, j, rng, mode, depth=0, sib=()):
     """add fresh properties at object nodes that are matched against structures / literals (not inside LSPAny payloads or maps)"""
     k = t["kind"]
     if k == "reference":
@@ -40,7 +51,7 @@ def extend(mmv, t, j, rng, mode, depth=0):
         if n in ("LSPAny", "LSPObject", "LSPArray"):
             return j
         if n in mmv.A:
-            return extend(mmv, mmv.A[n]["type"], j, rng, mode, depth)
+            return extend(mmv, mmv.A[n]["type"], j, rng, mode, depth, sib)
         if n in mmv.S and isinstance(j, dict):
             ps = mmv.flat(n)
             if not ps:
@@ -57,6 +68,10 @@ def extend(mmv, t, j, rng, mode, depth=0):
                         if cand not in ps and cand not in r and cand not in DECLARED:
                             r[cand] = mmv.rand(ps[pn]["type"], rng, 2, 2)
                             break
+                # at a union site: undeclared names made from the keys of the SIBLING alternatives (proper substrings, concatenations)
+                cands = near_sibling_names(set(sib) - set(ps), set(ps) | set(r)) if sib else []
+                for cand in rng.sample(cands, min(len(cands), 3)):
+                    r[cand] = rng.choice(PAYLOADS)
                 if rng.random() < 0.5:   # extras need not come last
                     items = list(r.items())
                     rng.shuffle(items)
@@ -71,9 +86,16 @@ def extend(mmv, t, j, rng, mode, depth=0):
         return [extend(mmv, a, x, rng, mode, depth + 1) for a, x in zip(t["items"], j)]
     if k == "or":
         # extend under the first alternative whose shape fits (objects: a structure/literal declaring all keys of j)
+        sibs = set()
+        for a in CP.alts(mmv, t):
+            ra = mmv.resolve_alias(a)
+            if ra["kind"] == "reference" and ra["name"] in mmv.S:
+                sibs |= set(mmv.flat(ra["name"]))
+            elif ra["kind"] == "literal":
+                sibs |= {p["name"] for p in ra["value"]["properties"]}
         for a in CP.alts(mmv, t):
             if fits(mmv, a, j):
-                return extend(mmv, a, j, rng, mode, depth)
+                return extend(mmv, a, j, rng, mode, depth, sibs)
         return j
     if k == "literal" and isinstance(j, dict):
         ps = {p["name"]: p for p in t["value"]["properties"]}
